@@ -6,8 +6,8 @@ EXPLANATION = ("C19: cnl::sqrt is executed symbolically (both loops unrolled pat
                "termination within digits/2+2 iterations) for every non-negative value of the type and the result r is "
                "proved to satisfy 0 <= r, r*r <= x < (r+1)*(r+1); elastic_integer results fit the halved digit count, "
                "scaled_integer results carry exponent E/2 (emitted constant).")
-BOUNDS = {"quick": "T in {u8,i8,u16,i16,u32,i32}; elastic_integer<D> D in {7,8,15,16,31} and narrowest types int8_t/int16_t/uint8_t narrower than the root; scaled_integer<i16/i32, power<E>> even E in {-60..60 step 12}",
-          "thorough": "adds u64/i64 (INT encoding attempt under the cap) and all even exponents step 4"}
+BOUNDS = {"quick": "T in {u8,i8,u16,i16,u32,i32} in full; uint64_t and unsigned __int128 in slices (8 symbolic bits at bit 56 / 120 / 60 plus 4 at the bottom, other bits zero; signed 64/128-bit instantiations and other bit patterns outside the bound); elastic_integer<D> D in {7,8,15,16,31} and narrowest types int8_t/int16_t/uint8_t narrower than the root; scaled_integer<i16/i32, power<E>> even E in {-60..60 step 12}",
+          "thorough": "adds u64/i64 (INT encoding attempt under the cap), more slices (u128 at bit 90, u64 at bit 30) and all even exponents step 4"}
 
 
 def post(x, r):
@@ -28,6 +28,25 @@ def mk(name, T):
         return [("floor-sqrt", post(env.a["a"], env.ret(path)))]
     return Kernel(name, [("a", T)], R, body, mode="bv" if n <= 32 else "int", W=max(2 * n + 6, 40), pre=pre, claims=claims,
                   unwind=n + 4, max_paths=70000, desc="sqrt(%s)" % T, tags={"T": T}, timeout=60)
+
+
+def mk_slice(name, T, hi_shift):
+    """wide built-in reps (64/128 bit) in slices: 8 symbolic bits at bit position hi_shift and 4 at the bottom, the rest
+    zero - every value of the slice, so the initial bit position and the top-of-range iterations are exercised with a
+    BV query that has only 12 free bits (the full-width post-condition is out of reach for the SAT back end)"""
+    n = bits(T)
+    body = "    return cnl::sqrt(static_cast<%s>((static_cast<%s>(a) << %d) | b));" % (cpp(T), cpp(T), hi_shift)
+
+    def pre(env):
+        return X.And(env.a["a"] >= 0, env.a["a"] <= 0xff, env.a["b"] >= 0, env.a["b"] <= 0xf)
+
+    def claims(env, path):
+        if path.kind != "RET":
+            return [("unexpected-outcome", False)]
+        x = env.a["a"] * (1 << hi_shift) + env.a["b"]
+        return [("floor-sqrt", post(x, env.ret(path)))]
+    return Kernel(name, [("a", "u32"), ("b", "u32")], T, body, mode="bv", W=2 * n + 6, pre=pre, claims=claims, unwind=n + 4,
+                  max_paths=70000, desc="sqrt(%s) slice a<<%d|b, a<2^8, b<2^4" % (T, hi_shift), tags={"T": T, "slice": hi_shift}, timeout=60)
 
 
 def mk_elastic(name, D, NT="int"):
@@ -77,6 +96,10 @@ def kernels(opts):
     ks = []
     for T in ["u8", "i8", "u16", "i16", "u32", "i32"] + (["u64", "i64"] if tier != "quick" else []):
         ks.append(mk("K%d" % len(ks), T))
+    # unsigned 64- and 128-bit built-in reps in slices (top of the range and the middle; the signed instantiations are
+    # not if-converted by clang and run out of the path budget - outside the bound)
+    for (T, sh) in (("u64", 56), ("u128", 120), ("u128", 60)) + ((("u128", 90), ("u64", 30)) if tier != "quick" else ()):
+        ks.append(mk_slice("K%d" % len(ks), T, sh))
     for D in (7, 8, 15, 16, 31):
         ks.append(mk_elastic("K%d" % len(ks), D))
     # narrowest types narrower than the root (the root's rep is wider than Narrowest)
